@@ -277,6 +277,11 @@ RULES['C12'] = RULES['C12']
 
 # ----------------------------------------------------------------------------- key identity (C15)
 
+def kval(rng, f):
+    """family 4 = files: value = file * 3 + spelling (d/f, d//f, d/./f are equal PathBufs)"""
+    return str(rng.randint(0, 1) if f < 2 else (0 if f < 4 else rng.randint(0, 5)))
+
+
 def gen_keys_case(rng):
     toks = []
     for _ in range(rng.randint(3, 30)):
@@ -284,20 +289,21 @@ def gen_keys_case(rng):
         if r < 0.40:
             toks += ['q', str(rng.randint(0, 6)), str(rng.randint(0, 2))]
         elif r < 0.65:
-            f = rng.randint(0, 3); toks += ['R', str(f), str(rng.randint(0, 1) if f < 2 else 0)]
+            f = rng.randint(0, 4); toks += ['R', str(f), kval(rng, f)]
         elif r < 0.80:
-            f = rng.randint(0, 3); toks += ['E', str(f), str(rng.randint(0, 1) if f < 2 else 0), str(rng.randint(0, 5))]
+            f = rng.randint(0, 4); toks += ['E', str(f), kval(rng, f), str(rng.randint(0, 5))]
         elif r < 0.85:
-            f = rng.randint(0, 3); toks += ['D', str(f), str(rng.randint(0, 1) if f < 2 else 0)]
+            f = rng.randint(0, 4); toks += ['D', str(f), kval(rng, f)]
         else:
-            f = rng.randint(0, 3); toks += ['b', str(f), str(rng.randint(0, 1) if f < 2 else 0)]
+            f = rng.randint(0, 4); toks += ['b', str(f), kval(rng, f)]
     return toks
 
 
 def gen_keys_cases(rng, tier):
     corpus = ["q 0 3 q 1 3 q 3 3 q 0 3 q 4 3 q 5 3 q 6 3 q 2 3 q 3 3 q 6 3".split(),
               "R 2 0 R 3 0 E 2 0 5 b 2 0 R 2 0 R 3 0 E 3 0 7 b 2 0 b 3 0".split(),        # zero-sized resource types, boxed change reports
-              "R 0 1 R 1 1 E 0 1 4 b 1 1 b 0 1 R 0 1 R 1 1".split()]
+              "R 0 1 R 1 1 E 0 1 4 b 1 1 b 0 1 R 0 1 R 1 1".split(),
+              "E 4 0 3 R 4 0 R 4 1 E 4 2 5 b 4 1 R 4 2 R 4 3 E 4 4 1 R 4 5".split()]      # one file under three equal spellings of its path
     return corpus + [gen_keys_case(rng) for _ in range(500 if tier == 'quick' else 15000)]
 
 
@@ -312,6 +318,8 @@ def keys_oracle(toks, lines):
     i = 0; li = 0
     while i < len(toks):
         op, f, v = toks[i], int(toks[i + 1]), int(toks[i + 2]); i += 3
+        v0 = v
+        if f == 4 and op != 'q': v = v // 3          # the spellings of one path are one key
         if op == 'q':
             x = 0 if ('t', f, v) in cache else 1
             cache.add(('t', f, v))
@@ -337,11 +345,11 @@ def keys_oracle(toks, lines):
             exp = 'o done x%d' % x
         if li >= len(lines): return 'probe stopped after %d observations' % li
         if lines[li] != exp:
-            return 'key identity: operation %d (%s %d %d) observed %r; treating keys as (concrete type, value) gives %r' % (li, op, f, v, lines[li], exp)
+            return 'key identity: operation %d (%s %d %d) observed %r; treating keys as (concrete type, value) gives %r' % (li, op, f, v0, lines[li], exp)
         li += 1
     return None
 
-RULES['C15'] = 'random + corpus sequences of requires of tasks from seven type families with identical fields, Hash and Debug text (three newtypes, Box/Rc/Arc of one, Box of another), reader tasks over four resource key types (two zero-sized), external edits and bottom-up builds whose change report is a boxed trait object; run on the real Pie (misc_probe keys) and on the N-keyed model under the injective renaming (family,value)->N; outputs and execution counts compared, plus an independent (type,value)-keyed reference'
+RULES['C15'] = 'random + corpus sequences of requires of tasks from seven type families with identical fields, Hash and Debug text (three newtypes, Box/Rc/Arc of one, Box of another), reader tasks over five resource key types (two of them a pair of different types with the same type name, two zero-sized, and file paths under three equal spellings each), external edits and bottom-up builds whose change report is a boxed trait object; run on the real Pie (misc_probe keys) and on the N-keyed model under the injective renaming (family,value)->N; outputs and execution counts compared, plus an independent (type,value)-keyed reference'
 ASSUMPTIONS['C15'] = ['TypeId and downcast_ref are modelled by the type component of the key; Debug text of the families coincides so tracker events are not compared here']
 
 # ----------------------------------------------------------------------------- file checkers (C13)
@@ -353,9 +361,10 @@ FS_DIRS = [[], ['a'], ['b'], ['a', 'b'], ['ab'], ['ba', 'a'], ['b', 'aa'], ['x',
 def fs_state(rng):
     r = rng.random()
     if r < 0.12: return ['A']
-    if r < 0.65: return ['F', str(rng.choice(FS_SIZES)), str(rng.randint(0, 3)), str(rng.choice([100, 200]))]
+    # modification times: two in the past and one far in the FUTURE (clock skew, unpacked archives): a stamp is a function of the file, not of the wall clock
+    if r < 0.65: return ['F', str(rng.choice(FS_SIZES)), str(rng.randint(0, 3)), str(rng.choice([100, 200, 200, 3000000000]))]
     d = rng.choice(FS_DIRS)
-    return ['D', str(rng.choice([100, 200])), str(len(d))] + d
+    return ['D', str(rng.choice([100, 200, 3000000000])), str(len(d))] + d
 
 
 def gen_fs_cases(rng, tier):
@@ -367,6 +376,8 @@ def gen_fs_cases(rng, tier):
         "F 9000 0 100 | F 9000 3 100".split(),              # same size and mtime, content differs beyond the 8 KiB buffer
         "F 8193 0 100 | F 8193 1 100".split(),
         "F 10 0 100 | F 10 0 200".split(),
+        "F 10 0 3000000000 | F 10 0 3000000000".split(),     # a modification time in the future, nothing changes
+        "F 10 0 3000000000 | F 10 0 3000000001".split(), "D 3000000000 1 a | D 3000000000 1 a".split(),
         "A | F 0 0 100".split(), "F 0 0 100 | A".split(), "A | A".split(), "D 100 0 | A".split(),
     ]
     n = 260 if tier == 'quick' else 6000
